@@ -194,10 +194,11 @@ func check(c *graphCase, o *vk.Obs) []string {
 			if en.Flat.V == 0 && en.Cum.V == 0 {
 				continue
 			}
+			oneLine := strings.NewReplacer("\n", " ", "\r", " ")
+			addrOf[fmt.Sprintf("%q@%x:%d", oneLine.Replace(en.F.Name), en.F.Addr, en.F.Line)] = true
 			if en.F.Name == "" && en.F.File == "" && en.F.Addr == 0 && en.F.Line == 0 && en.Flat.Val() == 0 {
 				continue // prints as an all-empty zero-cost line, which the reader below skips as well
 			}
-			oneLine := strings.NewReplacer("\n", " ", "\r", " ")
 			want = append(want, fmt.Sprintf("%q %q @%x:%d =%d", oneLine.Replace(en.F.Name), oneLine.Replace(en.F.File), en.F.Addr, en.F.Line, en.Flat.Val()))
 			addrOf[fmt.Sprintf("%q@%x:%d", oneLine.Replace(en.F.Name), en.F.Addr, en.F.Line)] = true
 		}
